@@ -113,7 +113,7 @@ def run_property(pid, mod, tier, seed, t0):
         "trusted_base": ["Lean 4.33.0 kernel", "Mathlib v4.33.0 (kernel-checked library)"]
                         + sorted({a for _n, axs in audit["theorems"] for a in axs})
                         + getattr(mod, "TRUSTED", []),
-        "property_theorems": [n for n, _ in audit["theorems"] if ".Generated." not in n],
+        "property_theorems": [n for n, _ in audit["theorems"] if ".Generated" not in n],
         "generated_tie_obligations": audit["generated_theorems"],
         "lean_sources_scanned": nfiles,
         "leanchecker": lc,
